@@ -67,6 +67,8 @@ pub fn run(ctx: &Ctx) -> Outcome {
         // a size probe that was selectively acknowledged, lost, expired, re-cut
         run_and_report(ctx, &mtu_probe_sacked(ctx.tier, 0, ctx.tier.pick(5, 7)), &mut out);
         run_and_report(ctx, &mtu_probe_sacked(ctx.tier, 1, ctx.tier.pick(5, 7)), &mut out);
+        run_and_report(ctx, &mtu_probe_sacked_bidir(ctx.tier, 0, ctx.tier.pick(6, 8)), &mut out);
+        run_and_report(ctx, &mtu_probe_sacked_bidir(ctx.tier, 1, ctx.tier.pick(6, 8)), &mut out);
     }
     out.rule = "C01: fault plans enumerated by iterative deviation bounding over generated scenarios; distinct_nontrivial = executions with a distinct (timed) datagram+application trace".into();
     out.assumptions.push("payload is position-coded (period 251 with carry), so a wrong offset, duplicate or swap is visible in the data".into());
